@@ -14,7 +14,8 @@
      open   C16-F1  the carried sort of Take / Window names an id of its own relation that a Select (or the Aggregate of
                     a group body) has dropped -- rq_wf_lax is what holds modulo F1;
             C16-F6  a function that mentions its relation parameter twice makes the Lowerer lower one PL node twice;
-            C16-F7  a column excluded by `select !{..}` in a joined sub-pipeline is still bound from outside.
+            C16-F7  a column excluded by `select !{..}` in a joined sub-pipeline is still bound from outside;
+            C16-F8  a top-level scalar `let` mentioned twice is inlined with one PL node id (same root cause as F6).
      fixed  C16-F2 (8f24a64), C16-F3 (7911778: lookup_cid reports an error instead of panicking),
             C16-F4 (3b8ac37: create_a_table_instance keeps duplicate columns -- Model/Lowerer.v follows, and
             inline_redirects_every_select_id below is the statement that was false of the old model),
@@ -394,3 +395,18 @@ Definition scope_ops : list op :=
 Example c16_ex_out_of_scope_use_is_no_strict_step :
   (exists s, run init scope_ops = Some s) /\ vrun init scope_ops = None /\ (exists s, vrun init (firstn 3 scope_ops) = Some s).
 Proof. vm_compute. repeat split; eexists; reflexivity. Qed.
+
+(* C16-F8  `let k = (1 + 2)` / `from t | derive {a1 = k} | append (from u | derive {b1 = k})` : both mentions of k carry one PL
+   node id, the second declare is answered from node_mapping (ODeclare's short-circuit: `cached`), and the appended
+   sub-pipeline (table 2) selects Compute 1 of the main pipeline.  The loose machine reproduces the run exactly; the strict
+   machine refuses operation 6, the OEndInline whose closing Select names id 1. *)
+Definition finding_f8 : rq :=
+  (mkRq [(mkTable 0 None (mkRel (KExternRef [[117]]) [RWildcard])); (mkTable 1 None (mkRel (KExternRef [[116]]) [RWildcard])); (mkTable 2 None (mkRel (KPipeline [(TFrom (mkTRef 0 [(RWildcard, 2)] (Some [117]))); (TSelect [2; 1])]) [RWildcard; (RSingle (Some [98;49]))]))] (mkRel (KPipeline [(TFrom (mkTRef 1 [(RWildcard, 0)] (Some [116]))); (TCompute 1 (ENode (KOp [115;116;100;46;97;100;100]) [ELit; ELit]) None false); (TAppend (mkTRef 2 [(RWildcard, 3); ((RSingle (Some [98;49])), 4)] None)); (TSelect [0; 4])]) [RWildcard; (RSingle (Some [97;49]))])).
+
+Definition f8_trace : list (op * list obs) :=
+  [(ODeclExtern [[117]] [RWildcard], [(BTable 0)]); (ODeclExtern [[116]] [RWildcard], [(BTable 1)]); (OBegin false 134 (Some [116]) (SExisting 1), [(BDepth 1); (BInput 134 [(RWildcard, 0)]); (BTop (TFrom (mkTRef 1 [(RWildcard, 0)] (Some [116]))))]); (ODeclare 111 (ENode (KOp [115;116;100;46;97;100;100]) [ELit; ELit]) None false false, [(BCid 111 1); (BTop (TCompute 1 (ENode (KOp [115;116;100;46;97;100;100]) [ELit; ELit]) None false))]); (OBegin true 124 (Some [117]) (SExisting 0), [(BReserved 2); (BDepth 2); (BInput 124 [(RWildcard, 2)]); (BTop (TFrom (mkTRef 0 [(RWildcard, 2)] (Some [117]))))]); (ODeclare 111 ELit None false false, [(BCid 111 1)]); (OEndInline 128 [(RWildcard, 2); ((RSingle (Some [98;49])), 1)] UAppend, [(BTable 2); (BDepth 1); (BInput 128 [(RWildcard, 3); ((RSingle (Some [98;49])), 4)]); (BRedirect [(1, 4); (2, 3)]); (BTop (TAppend (mkTRef 2 [(RWildcard, 3); ((RSingle (Some [98;49])), 4)] None)))]); (OEndTable (Some [109;97;105;110]) [(RWildcard, 0); ((RSingle (Some [97;49])), 4)], [(BTable 3); (BDepth 0)])].
+
+Example c16_finding_f8_let_value_lowered_once :
+  rq_diags finding_f8 = [DForeign 2 SSelect 1; DNotVisible 3 SSelect 4]
+  /\ replay_ok f8_trace finding_f8 = true /\ replay_strict_verdict f8_trace finding_f8 = 7.
+Proof. vm_compute. auto. Qed.
